@@ -128,8 +128,12 @@ func makeResourceSetting(cpu float64, memory int64, cpuMap map[string]int64, num
 			// unrestrained cpu quota for binding
 			resource.CPUQuota = -1
 			// cpu share for fragile pieces
+			// (an amount that is a whole number of cores up to floating point dust, e.g. 0.69+0.31, has no
+			// fragile piece: a share of 0 would mean "leave as it is" to the daemon)
 			if _, divpart := math.Modf(cpu); divpart > 0 {
-				resource.CPUShares = int64(math.Round(float64(1024) * divpart))
+				if share := int64(math.Round(float64(1024) * divpart)); share > 0 {
+					resource.CPUShares = share
+				}
 			}
 		}
 	}
